@@ -18,7 +18,12 @@ first = {}
 
 def one(case):
     env.reset()
-    out = mod.classify(case) if pid != "C01" else mod.classify(case, None, 300)
+    if pid == "C05":
+        out = mod.run_history(case)
+    elif pid == "C09":
+        out = mod.classify_ir(case)
+    else:
+        out = mod.classify(case) if pid not in ("C01", "C02", "C04") else mod.classify(case, None, 300)
     fails = out[0] if isinstance(out, tuple) else out
     feats = sorted(modelir.features(case["prog"]))
     print("case", feats, "fails", [b for b, _ in fails][:4], flush=True)
@@ -26,7 +31,14 @@ def one(case):
         buckets[b] += 1
         first.setdefault(b, (w, case))
 
-strat = st.builds(lambda p, k: {**p, "key": k, "discrete": disc}, modelir.programs(discrete=disc, force=force), st.integers(0, 2**30))
+if pid in ("C02", "C03", "C04"):
+    strat = mod.cases(disc, force)
+elif pid == "C05":
+    strat = mod.histories(force, 6)
+elif pid == "C09":
+    strat = mod.ir_cases(force)
+else:
+    strat = st.builds(lambda p, k: {**p, "key": k, "discrete": disc}, modelir.programs(discrete=disc, force=force), st.integers(0, 2**30))
 drive(ctx, strat, n, one, "dev")
 print("BUCKETS", dict(buckets))
 for b, (w, case) in first.items():
